@@ -73,6 +73,9 @@ func c5propSrc(name string, p c5prop) string {
 		return fmt.Sprintf(`%s: {|r, x| ["f%d", r.uid, x]}`, name, p.val)
 	case "method":
 		return fmt.Sprintf(`%s: m{|x| ["m%d", .uid, x]}`, name, p.val)
+	case "func0":
+		// a function literal without a parameter list: it still receives the receiver first (\1) and the arguments after it
+		return fmt.Sprintf(`%s: {["g%d", \1.uid, \0[1:][0]]}`, name, p.val)
 	}
 	return fmt.Sprintf(`_missing: m{|name, x| ["missing%d", .uid, name, x]}`, p.val)
 }
@@ -156,7 +159,7 @@ func runC05(w *fw.W) {
 				if _, dup := props[name]; dup {
 					continue
 				}
-				p := c5prop{kind: []string{"value", "value", "func", "method"}[rng.Intn(4)], val: 1000 + id*10 + len(props)}
+				p := c5prop{kind: []string{"value", "value", "func", "method", "func0"}[rng.Intn(5)], val: 1000 + id*10 + len(props)}
 				props[name] = p
 				parts = append(parts, c5propSrc(name, p))
 			}
@@ -197,7 +200,11 @@ func runC05(w *fw.W) {
 				}
 				f.objs[s].hasUID = false // structurally equal twins: not used as kindOf? targets
 				counters["define_from_object"]++
-				switch v := rng.Intn(5); v {
+				switch v := rng.Intn(7); v {
+				case 5, 6:
+					// an object literal is a child of Obj holding the pairs it lists: `{**o}` lists o's own props
+					f.objs = append(f.objs, &c5obj{id: id, parent: -1, props: cp})
+					run(fmt.Sprintf("%s := "+[]string{"{**o%d}", "{**o%d, **{}}"}[v-5], name, s))
 				case 0:
 					f.objs = append(f.objs, &c5obj{id: id, parent: -1, props: cp})
 					run(fmt.Sprintf("%s := Obj.bear(o%d)", name, s))
@@ -288,6 +295,8 @@ func runC05(w *fw.W) {
 					return fmt.Sprintf(`["f%d", %s, %s]`, p.val, uidIns, arg), ""
 				case found && p.kind == "method":
 					return fmt.Sprintf(`["m%d", %s, %s]`, p.val, uidIns, arg), ""
+				case found && p.kind == "func0":
+					return fmt.Sprintf(`["g%d", %s, %s]`, p.val, uidIns, arg), ""
 				case mFound:
 					return fmt.Sprintf(`["missing%d", %s, "%s", %s]`, mp.val, uidIns, name, arg), ""
 				}
@@ -308,6 +317,8 @@ func runC05(w *fw.W) {
 					return fmt.Sprintf(`["f%d", %s, %s]`, pj.val, u, arg), "", true
 				case fj && pj.kind == "method":
 					return fmt.Sprintf(`["m%d", %s, %s]`, pj.val, u, arg), "", true
+				case fj && pj.kind == "func0":
+					return fmt.Sprintf(`["g%d", %s, %s]`, pj.val, u, arg), "", true
 				case mfj:
 					return fmt.Sprintf(`["missing%d", %s, "%s", %s]`, mpj.val, u, name, arg), "", true
 				}
